@@ -27,7 +27,8 @@ Rules1 ==
       E     |-> Rule(Str(<<>>)),
       L     |-> Rule(Right(Expect(A1), Star(A1))),
       M     |-> Rule(Seq2(Not(B1), Opt(Ref("K")))),
-      F     |-> Rule(Ch2(Seq2(A1, FailE), B1)) ]
+      F     |-> Rule(Ch2(Seq2(A1, FailE), B1)),
+      Sh    |-> Rule(Seq2(Expect(Ref("K")), Ref("K"))) ]          \* the memoised instance occurs twice in the result
 
 Rules2 ==
     [ start |-> Rule(Star(Ref("Item"))),
@@ -52,7 +53,7 @@ Grammar(i) ==
       [] i = 3 -> [rules |-> Rules2, ign |-> <<>>, start |-> "start"]
       [] i = 4 -> [rules |-> Rules2, ign |-> <<Rgx(RxPlus(Cls(<<sp>>)))>>, start |-> "start"]
 
-Entries(i) == IF i <= 2 THEN <<"start", "X", "Y", "K", "N", "Z", "E", "L", "M", "F">>
+Entries(i) == IF i <= 2 THEN <<"start", "X", "Y", "K", "N", "Z", "E", "L", "M", "F", "Sh">>
               ELSE IF i = 5 THEN <<"start", "H", "Body", "R">>
               ELSE <<"start", "Item", "W", "P", "Q", "T">>
 
